@@ -165,7 +165,7 @@ Definition id_positions (f : bfunc) : list N :=
 Definition interp_func_agrees (f : bfunc) (g : ifunc) : bool :=
   N.eqb (compact_of lint_scope_bit (f_scopes f)) (compact_of interp_scope_bit (if_scope g))
   && Bool.eqb (if_stmt g) (N.eqb (f_ret f) T_Never)
-  && list_eqb N.eqb (id_positions f) (if_ident g).
+  && forallb (fun i => mem_N i (if_ident g)) (id_positions f) && forallb (fun i => mem_N i (id_positions f)) (if_ident g).
 
 (* ---- a value where a type is expected: contexts x expected types; positions are those of the operator cells *)
 Definition coerce_ctxs : list string := ["arg"; "ret"; "par"].
